@@ -55,8 +55,14 @@ impl<'a> Walk<'a> {
     fn check_node(&mut self, g: &Game) {
         self.nodes += 1;
         let r = self.refs.last().unwrap().clone();
+        // a raw FEN root keeps the en-passant field of its text: the tolerant rule is about make_move
+        let raw_root = self.ops.is_empty() && self.seed_fen.starts_with("raw:");
         if self.om.rules {
-            if let Err(e) = mo::compare_with_ref(g, &r) {
+            if raw_root {
+                if g.en_passant_target.map(|s| s.idx()) != r.ep {
+                    self.vio("ops-position", format!("from_fen keeps en-passant target {:?}, the text says {:?}", g.en_passant_target, r.ep.map(crate::refchess::sq_name)));
+                }
+            } else if let Err(e) = mo::compare_with_ref(g, &r) {
                 self.vio("ops-position", e);
             }
             if let Err(e) = mo::board_views_agree(g) {
@@ -245,6 +251,16 @@ impl<'a> Walk<'a> {
 }
 
 /// Walk all seeds in parallel (one shard per seed and first operation). Returns (nodes, edges).
+/// Roots given as standard FEN text whose en-passant field is set although no pawn can capture there
+/// (most programs write the field after every double step). Built through Game::from_fen.
+pub const RAW_FEN_ROOTS: [&str; 5] = [
+    "rnbqkbnr/pppppppp/8/8/4P3/8/PPPP1PPP/RNBQKBNR b KQkq e3 0 1",
+    "rnbqkb1r/pppppppp/5n2/8/2PP4/8/PP2PPPP/RNBQKBNR b KQkq c3 0 2",
+    "rnbqkbnr/pp1ppppp/8/2p5/4P3/8/PPPP1PPP/RNBQKBNR w KQkq c6 0 2",
+    "4k3/8/8/8/r2pP2K/8/8/8 b - e3 0 1",
+    "r3k2r/8/8/8/1p6/8/P7/R3K2R w KQkq - 0 1",
+];
+
 pub fn run_ops(ctx: &Ctx, om: OpMon, seeds: &[(String, Pos, usize)], total: &Mutex<Counts>) -> (u64, u64) {
     // shards: (seed index, first-op index or none)
     let mut shards: Vec<(usize, usize)> = vec![];
@@ -261,12 +277,13 @@ pub fn run_ops(ctx: &Ctx, om: OpMon, seeds: &[(String, Pos, usize)], total: &Mut
     let stats = Mutex::new((0u64, 0u64));
     par_for(shards.len(), |si| {
         let (i, k) = shards[si];
-        let (_, seed, depth) = &seeds[i];
-        let mut g = eng::to_game(seed);
+        let (name, seed, depth) = &seeds[i];
+        let raw = name.starts_with("raw:");
+        let mut g = if raw { Game::from_fen(&seed.to_fen_with_ep(seed.ep)).expect("raw FEN root") } else { eng::to_game(seed) };
         let mut w = Walk {
             ctx,
             om,
-            seed_fen: seed.to_fen(),
+            seed_fen: if raw { format!("raw:{}", seed.to_fen_with_ep(seed.ep)) } else { seed.to_fen() },
             ops: vec![],
             refs: vec![],
             id_adj: vec![],
@@ -366,8 +383,9 @@ impl<'a> Walk<'a> {
 
 /// Replay one stored operation list on a fresh game, checking after every operation.
 pub fn replay_ops(ctx: &Ctx, om: OpMon, seed_fen: &str, ops: &[String]) -> Result<(), String> {
-    let seed = Pos::from_fen(seed_fen)?;
-    let mut g = eng::to_game_with_ep(&seed, seed.ep);
+    let raw = seed_fen.starts_with("raw:");
+    let seed = Pos::from_fen(seed_fen.trim_start_matches("raw:"))?;
+    let mut g = if raw { Game::from_fen(seed_fen.trim_start_matches("raw:"))? } else { eng::to_game_with_ep(&seed, seed.ep) };
     let mut w = Walk { ctx, om, seed_fen: seed_fen.to_string(), ops: vec![], refs: vec![], id_adj: vec![], id_legal: vec![], irreversible: vec![], c: Counts::new(), nodes: 0, edges: 0 };
     w.push_ref(seed.clone(), false);
     let mut snaps: Vec<Snapshot> = vec![];
